@@ -28,7 +28,7 @@ _COUNTER = itertools.count()
 DEFAULT_INVOKE_KINDS = ("plain", "implicit", "component", "combiner", "condition", "incident", "fact", "rule")
 KIND_CLASSES = {"component": component, "combiner": combiner, "condition": condition, "incident": incident,
                 "fact": fact, "rule": rule, "datasource": datasource, "impl": datasource, "parser": parser}
-OUTCOMES_FAULT = ("skip", "ce", "cpe", "timeout", "boom", "keyerr", "valerr")
+OUTCOMES_FAULT = ("skip", "ce", "cpe", "timeout", "boom", "keyerr", "valerr", "typeerr")
 RULE_RESPONSES = {"pass": make_pass, "fail": make_fail, "info": make_info, "fingerprint": make_fingerprint}
 
 
@@ -53,6 +53,9 @@ def make_exc(outcome, tag):
         return KeyError("key-%s" % tag)
     if outcome == "valerr":
         return ValueError("val-%s" % tag)
+    if outcome == "typeerr":
+        # what int() / float() of an absent optional value raises inside a body
+        return TypeError("int() argument must be a string, a bytes-like object or a real number, not 'NoneType' (%s)" % tag)
     return None
 
 
